@@ -9,7 +9,7 @@ wt=/tmp/confirm_$$
 git -C /repo worktree add -q --detach $wt HEAD || exit 3
 trap 'git -C /repo worktree remove --force $wt >/dev/null 2>&1; rm -f /tmp/confirm_$$.*' EXIT
 cd $wt
-demo(){ ( cd $wt/$pkg && timeout 300 go test -vet=off -count=1 -run 'VerifDemo|Verif|Demo|C[0-9]+M[0-9]' . > /tmp/confirm_$$.demo 2>&1; echo $? > /tmp/confirm_$$.rc ); tail -${1:-6} /tmp/confirm_$$.demo; }
+demo(){ ( cd $wt/$pkg && timeout 300 go test -vet=off -count=1 -run 'VerifDemo|Verif|Demo|C[0-9]+M[0-9]|TestC[0-9]+' . > /tmp/confirm_$$.demo 2>&1; echo $? > /tmp/confirm_$$.rc ); tail -${1:-6} /tmp/confirm_$$.demo; }
 if [ -z "$SKIP_CONFIRM" ]; then
   cp $src/verif_demo_test.go $wt/$pkg/ || exit 3
   echo "== demo WITHOUT patch (expect pass)"; demo 4; r0=$(cat /tmp/confirm_$$.rc)
